@@ -154,14 +154,70 @@ fn check_parse(input: &ParseIn, case: &mut Case) -> Result<(), Fail> {
     Ok(())
 }
 
+/// a received message with EDNS data whose EDNS members and response code are then replaced through the public
+/// mutators and written again: the wire shows the new values only (no state left over from the parse)
+type ModIn = (ParseIn, AEdns, u16, bool);
+
+fn modify_strategy(t: Tier) -> BoxedStrategy<ModIn> {
+    (parse_strategy(t), gen::aedns(), select(NAMED_RCODES.to_vec()), any::<bool>()).boxed()
+}
+
+fn check_modify(input: &ModIn, case: &mut Case) -> Result<(), Fail> {
+    use simple_dns::rdata::{OPTCode, OPT};
+    let ((p, pos, eflags, _rcode, choices), new_edns, new_rcode, whole) = input;
+    let mut opts = if choices.is_empty() { EncOpts::plain() } else { EncOpts::foreign(choices.clone()) };
+    opts.edns_pos = *pos as usize;
+    opts.edns_flags = *eflags;
+    let wire = encode_message(p, &opts);
+    let mut pk = parse(&wire)?.map_err(|e| Fail::new("c09:rejected", format!("well-formed EDNS message rejected: {:?}", e)))?;
+    let old = p.edns.as_ref().unwrap();
+    case.nontrivial = old.version != new_edns.version || old.udp != new_edns.udp;
+    case.class(if *whole { "opt-replaced" } else { "opt-fields-edited" });
+    let codes: Vec<OPTCode> = new_edns.options.iter().map(|(k, v)| OPTCode { code: *k, data: std::borrow::Cow::Owned(v.0.clone()) }).collect();
+    if *whole {
+        lib("opt_mut", || *pk.opt_mut() = Some(OPT { opt_codes: codes.clone(), udp_packet_size: new_edns.udp, version: new_edns.version }))?;
+    } else {
+        lib("opt_mut", || {
+            if let Some(o) = pk.opt_mut().as_mut() {
+                o.version = new_edns.version;
+                o.udp_packet_size = new_edns.udp;
+                o.opt_codes = codes.clone();
+            }
+        })?;
+    }
+    let named = simple_dns::RCODE::from(*new_rcode);
+    lib("rcode_mut", || *pk.rcode_mut() = named)?;
+    for compressed in [false, true] {
+        let out = if compressed { ser_compressed(&pk) } else { ser_plain(&pk) }.map_err(|f| Fail::new("c09:build-failed", f.msg))?;
+        let what = if compressed { "compressed" } else { "plain" };
+        let w = walk(&out).map_err(|e| Fail::new("c09:unwalkable", format!("{} output after opt_mut does not walk: {:?}", what, e)))?;
+        let recs: Vec<&WRecord> = w.records.iter().filter(|r| r.rtype == 41 && r.section == 2).collect();
+        ensure!(recs.len() == 1, "c09:opt-count", "{}: {} OPT records written after opt_mut", what, recs.len());
+        let o = recs[0];
+        ensure!(o.class_raw == new_edns.udp, "c09:modify-class", "{}: parsed udp size {}, set to {}, written CLASS {}", what, old.udp, new_edns.udp, o.class_raw);
+        let ttl = o.ttl.to_be_bytes();
+        ensure!(ttl[0] == (new_rcode >> 4) as u8 && ttl[1] == new_edns.version, "c09:modify-ttl", "{}: parsed version {} / set to {}, rcode set to {}: TTL octets {:02x?}, expected [{:#04x}, {:#04x}, ..]", what, old.version, new_edns.version, new_rcode, ttl, new_rcode >> 4, new_edns.version);
+        let mut rd = Vec::new();
+        for (k, v) in &new_edns.options {
+            rd.extend_from_slice(&k.to_be_bytes());
+            rd.extend_from_slice(&(v.len() as u16).to_be_bytes());
+            rd.extend_from_slice(v);
+        }
+        ensure!(out[o.rdata_off..o.end] == rd[..], "c09:modify-rdata", "{}: RDATA {} expected {}", what, hex(&out[o.rdata_off..o.end]), hex(&rd));
+        ensure!(w.flags_word & 15 == new_rcode & 15, "c09:header-nibble", "{}: header RCODE nibble {} for response code {}", what, w.flags_word & 15, new_rcode);
+    }
+    Ok(())
+}
+
 pub fn def() -> CheckDef {
     CheckDef {
         id: "C09",
-        rule: "proptest. Build side: named rcode (BADVERS included) x EDNS (udp 0..65535, version 0..255, option lists with any code / 0..600 bytes) x 0..3 other additional records x 0..2 answer and 0..2 authority records x optional question x flag subsets, plain and compressed; an independent walker checks: exactly one TYPE 41 record, in the additional section, counted once in ARCOUNT, owner = single root octet, CLASS = udp size, TTL octets = [rcode>>4, version, 0, 0], RDATA = concatenated (code,len,value), header nibble = rcode&15, and the reference decoder reads the model back. Parse side: reference-encoded messages with the OPT record at any index of the additional section, arbitrary DO/Z bits, named and unnamed 12-bit response codes, foreign compression; oracle: opt() = (udp, version, options in order), no TYPE 41 left in additional_records, others in order, rcode() = the named variant for named values (Reserved otherwise). Non-trivial = options non-empty or extended rcode != 0 or other additional records present",
+        rule: "proptest. Build side: named rcode (BADVERS included) x EDNS (udp 0..65535, version 0..255, option lists with any code / 0..600 bytes) x 0..3 other additional records x 0..2 answer and 0..2 authority records x optional question x flag subsets, plain and compressed; an independent walker checks: exactly one TYPE 41 record, in the additional section, counted once in ARCOUNT, owner = single root octet, CLASS = udp size, TTL octets = [rcode>>4, version, 0, 0], RDATA = concatenated (code,len,value), header nibble = rcode&15, and the reference decoder reads the model back. Parse side: reference-encoded messages with the OPT record at any index of the additional section, arbitrary DO/Z bits, named and unnamed 12-bit response codes, foreign compression; oracle: opt() = (udp, version, options in order), no TYPE 41 left in additional_records, others in order, rcode() = the named variant for named values (Reserved otherwise). Modify: a parsed EDNS message whose OPT (whole, or member by member) and response code are replaced through opt_mut / rcode_mut and written again shows exactly the new udp size, version, options and 12-bit code on the wire. Non-trivial = options non-empty or extended rcode != 0 or other additional records present",
         assumptions: vec!["OPT TTL layout transcribed from RFC 6891 section 6.1.3", "unnamed response codes are only required to show as Reserved"],
         sections: vec![
             Box::new(PropSection { name: "build", rule: "EDNS on the wire", strategy: build_strategy, cases: (200_000, 2_000_000), check: check_build }),
             Box::new(PropSection { name: "parse", rule: "EDNS from the wire", strategy: parse_strategy, cases: (200_000, 2_000_000), check: check_parse }),
+            Box::new(PropSection { name: "modify", rule: "EDNS members replaced after parsing", strategy: modify_strategy, cases: (80_000, 800_000), check: check_modify }),
         ],
     }
 }
